@@ -35,6 +35,7 @@ type Inject struct {
 }
 
 type Route struct {
+	Dst    string `json:"dst,omitempty"` // "" = default
 	Dev    string `json:"dev"`
 	Via    string `json:"via,omitempty"`
 	Metric int    `json:"metric"`
@@ -47,6 +48,8 @@ type Scenario struct {
 	SxBin    string   `json:"sx_bin"`
 	SxArgs   []string `json:"sx_args"`
 	SxStdin  string   `json:"sx_stdin"`
+	SigintMs int      `json:"sigint_after_ms"`     // live scans: interrupt sx after this long at the latest
+	SigintN  int      `json:"sigint_after_frames"` // ... or as soon as this many non-IPv6 frames were captured
 	TimeoutS int      `json:"timeout_s"`
 }
 
@@ -147,12 +150,23 @@ func main() {
 		fmt.Fprintln(os.Stderr, "nsrun: watchdog")
 		os.Exit(3)
 	}()
+	var nonV6 int
+	var onCount func()
 	add := func(iface string, link bool, b []byte) {
 		mu.Lock()
 		if !stopped && len(rep.Frames) < 100000 {
 			rep.Frames = append(rep.Frames, Frame{Iface: iface, Link: link, Hex: hex.EncodeToString(b)})
 		}
+		v6 := (link && len(b) >= 14 && b[12] == 0x86 && b[13] == 0xdd) || (!link && len(b) > 0 && b[0]>>4 == 6)
+		fire := false
+		if !v6 {
+			nonV6++
+			fire = sc.SigintN > 0 && nonV6 == sc.SigintN && onCount != nil
+		}
 		mu.Unlock()
+		if fire {
+			onCount()
+		}
 	}
 	byIface := map[string]map[int][][]byte{}
 	for _, in := range sc.Inject {
@@ -297,7 +311,11 @@ func main() {
 		}
 	}
 	for _, r := range sc.Routes {
-		args := []string{"route", "append", "default"}
+		dst := r.Dst
+		if dst == "" {
+			dst = "default"
+		}
+		args := []string{"route", "append", dst}
 		if r.Via != "" {
 			args = append(args, "via", r.Via)
 		}
@@ -319,6 +337,7 @@ func main() {
 	time.Sleep(60 * time.Millisecond)
 	mu.Lock()
 	rep.Frames = nil
+	nonV6 = 0
 	mu.Unlock()
 
 	t0 := time.Now()
@@ -331,6 +350,12 @@ func main() {
 	}
 	waited := make(chan error, 1)
 	go func() { waited <- cmd.Wait() }()
+	if sc.SigintMs > 0 {
+		time.AfterFunc(time.Duration(sc.SigintMs)*time.Millisecond, func() { cmd.Process.Signal(syscall.SIGINT) })
+	}
+	mu.Lock()
+	onCount = func() { cmd.Process.Signal(syscall.SIGINT) }
+	mu.Unlock()
 	tmo := time.Duration(sc.TimeoutS) * time.Second
 	if tmo == 0 {
 		tmo = 30 * time.Second
